@@ -297,7 +297,7 @@ def reject_job(e, p):
     parsing = p['parsing']
     if 'text' in p: bs = list(p['text'].encode()); inp = SymStr(bs); malformed = True
     else:
-        bs, inp = c08.sym_input(e, p['L'])
+        bs, inp = c08.sym_input(e, len(p.get('prefix', '')) + p['L'])          # the prefix followed by L symbolic bytes
         for b, ch in zip(bs, p.get('prefix', '')): e.assume(b == ord(ch))
         malformed = None
     others = [('w', PROB, 'Parse')]
